@@ -192,7 +192,7 @@ where
                 std::thread::sleep(std::time::Duration::from_millis(250));
                 let stuck = running.lock().unwrap().values().find(|(_, _, t)| t.elapsed().as_secs_f64() > limit_s).copied();
                 if let Some((idx, seed, t)) = stuck {
-                    hang_exit(ctx, g, idx, seed, t.elapsed().as_secs_f64());
+                    hang_exit(ctx, g, idx, seed, t.elapsed().as_secs_f64(), &shared);
                 }
             }
         });
@@ -329,7 +329,7 @@ pub fn load_known(path: &str) -> Vec<Known> {
 
 /// A case did not return. For the property about hangs (C03) that is the violation itself; for
 /// every other check the run could not decide.
-fn hang_exit(ctx: &Ctx, g: &Group, idx: u64, seed: u64, secs: f64) -> ! {
+fn hang_exit(ctx: &Ctx, g: &Group, idx: u64, seed: u64, secs: f64, so_far: &Mutex<Report>) -> ! {
     let verif = std::env::var("QV_VERIF_DIR").unwrap_or_else(|_| "/verif".to_string());
     let replay_dir = format!("{verif}/evidence/replays");
     let _ = std::fs::create_dir_all(&replay_dir);
@@ -338,6 +338,44 @@ fn hang_exit(ctx: &Ctx, g: &Group, idx: u64, seed: u64, secs: f64) -> ! {
     let body = json!({"property": ctx.prop, "group": g.name, "case_index": idx, "case_seed": seed, "tier": ctx.tier.name(), "run_seed": ctx.seed, "message": msg});
     let _ = std::fs::write(&path, serde_json::to_string_pretty(&body).unwrap());
     let violation = ctx.prop == "C03";
+    // violations found before the stuck case are not lost: they are reported and decide the run
+    let mut earlier = 0;
+    if let Ok(rep) = so_far.try_lock() {
+        let known = load_known(&format!("{verif}/known_findings.json"));
+        let mut seen = BTreeSet::new();
+        for (vg, vidx, vseed, v) in &rep.violations {
+            let sig = normalize(&v.msg);
+            if known.iter().any(|k| k.property == v.prop && sig.contains(&k.signature)) {
+                continue;
+            }
+            earlier += 1;
+            if !seen.insert(sig) || seen.len() > 10 {
+                continue;
+            }
+            let vpath = format!("{replay_dir}/{}-{}-{}-{}.json", ctx.prop, ctx.seed, vg, vidx);
+            let vbody = json!({"property": ctx.prop, "group": vg, "case_index": vidx, "case_seed": vseed, "tier": ctx.tier.name(), "run_seed": ctx.seed, "message": v.msg});
+            let _ = std::fs::write(&vpath, serde_json::to_string_pretty(&vbody).unwrap());
+            println!("VIOLATION property={} replay={}", v.prop, vpath);
+            println!("  detail: {}", v.msg);
+        }
+    }
+    if earlier > 0 && !violation {
+        println!("INCONCLUSIVE-CASE: {msg}");
+        let ev = json!({
+            "property_id": ctx.prop,
+            "tier": ctx.tier.name(),
+            "seed": ctx.seed,
+            "level": "exploration",
+            "coverage": {"evaluations": 0, "distinct_nontrivial": 0, "rule": "run aborted by the per-case watchdog after violations had been found", "samples": [body]},
+            "wall_s": secs,
+            "verdict": "violated",
+            "violations": earlier,
+        });
+        let _ = std::fs::create_dir_all(format!("{verif}/evidence"));
+        let _ = std::fs::write(format!("{verif}/evidence/{}.json", ctx.prop), serde_json::to_string_pretty(&ev).unwrap());
+        println!("{}: run aborted by the watchdog, {earlier} violations before that => exit 1", ctx.prop);
+        std::process::exit(1);
+    }
     let ev = json!({
         "property_id": ctx.prop,
         "tier": ctx.tier.name(),
